@@ -85,6 +85,8 @@ type Chain struct {
 	// application's DeliverTx; every response is appended to TxTrace.
 	TxMode  bool
 	TxTrace []string
+	// HandlerPanics counts the panics recovered by Deliver, per message type and panic text.
+	HandlerPanics map[string]int
 }
 
 // Options for NewChain.
@@ -342,6 +344,10 @@ func (c *Chain) Deliver(msg sdk.Msg) (res *sdk.Result, err error) {
 		if r := recover(); r != nil {
 			err = fmt.Errorf("panic in handler: %v", r)
 			res = nil
+			if c.HandlerPanics == nil {
+				c.HandlerPanics = map[string]int{}
+			}
+			c.HandlerPanics[fmt.Sprintf("%T: %.70v", msg, r)]++
 		}
 	}()
 	res, err = h(cctx, msg)
